@@ -3,7 +3,7 @@ PROP = {
     "harness": "c07",
     "driver": "c07",
     "n_quick": 3,
-    "n_thorough": 60,
+    "n_thorough": 300,
     "harness_timeout": 2400,
     "trusted": [
         "e2e rig harness/cmd/c06/sc (shared with C06): scripted raw-frame peer over net.Pipe (public WithDialer/WithListener), one sequenced recorder, call -> frame attribution by a unique token in the body; log conventions stated in SendCoreMon.v",
